@@ -182,6 +182,12 @@ func (h *H) UnencLater(ctx *impls.HandlerContext, a *Arg, cb apientry.HandlerCBF
 	s.NodeService.Post(func() { apientry.CheckInvokeCBFunc(cb, nil, &struct{ Ratio float64 }{math.Inf(1)}) })
 }
 
+// EncPanicLater completes in a later turn with a result whose encoding panics.
+func (h *H) EncPanicLater(ctx *impls.HandlerContext, a *Arg, cb apientry.HandlerCBFunc) {
+	s := h.n.logInvocation(ctx, "encpaniclater", a.T)
+	s.NodeService.Post(func() { apientry.CheckInvokeCBFunc(cb, nil, &struct{ V *boomJSON }{&boomJSON{}}) })
+}
+
 // Never returns without ever completing.
 func (h *H) Never(ctx *impls.HandlerContext, a *Arg, cb apientry.HandlerCBFunc) {
 	h.n.logInvocation(ctx, "never", a.T)
